@@ -1,20 +1,27 @@
 package stats
 
-import "sync/atomic"
+import "sync"
 
+// mean keeps count and sum under one mutex: they are only meaningful as a pair, and with two
+// independent atomics a reset (or a get) running between the two halves of an add left them
+// describing different sets of values.
 type mean struct {
+	mu    sync.Mutex
 	count uint64
 	sum   uint64
 }
 
 func (m *mean) add(value uint64) {
-	atomic.AddUint64(&m.count, 1)
-	atomic.AddUint64(&m.sum, value)
+	m.mu.Lock()
+	m.count++
+	m.sum += value
+	m.mu.Unlock()
 }
 
 func (m *mean) get() float64 {
-	count := atomic.LoadUint64(&m.count)
-	sum := atomic.LoadUint64(&m.sum)
+	m.mu.Lock()
+	count, sum := m.count, m.sum
+	m.mu.Unlock()
 
 	if count == 0 {
 		return 0
@@ -24,6 +31,8 @@ func (m *mean) get() float64 {
 }
 
 func (m *mean) reset() {
-	atomic.StoreUint64(&m.count, 0)
-	atomic.StoreUint64(&m.sum, 0)
+	m.mu.Lock()
+	m.count = 0
+	m.sum = 0
+	m.mu.Unlock()
 }
